@@ -1,7 +1,7 @@
 use crate::{
     cfg::RegisterSet,
     parser::{
-        CsrIType, CsrType, HasRegisterSets, IArithType, InstructionProperties, ParserNode,
+        CsrIType, CsrType, HasRegisterSets, IArithType, Inst, InstructionProperties, ParserNode,
         Register, RegisterProperties,
     },
 };
@@ -112,7 +112,10 @@ impl HasGenValueInfo for ParserNode {
             }
             ParserNode::Arith(expr) => {
                 if expr.rs1 == Register::X0 && expr.rs2 == Register::X0 {
-                    Some((expr.rd.get(), AvailableValue::Constant(0)))
+                    // x0 op x0 is a constant, but not always zero (div, divu)
+                    Inst::from(expr.inst.get())
+                        .math_op()
+                        .map(|op| (expr.rd.get(), AvailableValue::Constant(op.operate(0, 0))))
                 } else {
                     None
                 }
